@@ -18,6 +18,12 @@ P = lambda i, n: ("param", i, n)
 BPP = "embedded_graphics_core::pixelcolor::raw::RawData::BITS_PER_PIXEL"
 
 
+def image_src(prog, t):
+    """the image whose data a ContiguousPixels stream reads: `self`, or `self.data` for a constructor that takes the slice"""
+    t = strip_refs(t)
+    return t == P(1, "self") or t == ("field", P(1, "self"), field_index(prog, IR, "data"))
+
+
 def is_bpp(t):
     return t[0] == "const" and isinstance(t[1], str) and t[1].startswith(BPP)
 
@@ -288,8 +294,8 @@ def pixel_and_draw(prog, rep):
         a = fc[0][3]
         shown = [show(fold(v), maxd=5) for v in a[1:]]
         good = a[0] == P(2, "target") and match(a[1], ("call", "*Rectangle::new", "_", (("call", "*Point::zero", "_", ()), asz))) is not None
-        m = match(fold(a[2]), ("call", "*ContiguousPixels::<'a, C, O>::new", "_", (P(1, "self"), asz, "?init", "?skip")))
-        good = good and m is not None
+        m = match(fold(a[2]), ("call", "*ContiguousPixels::<'a, C, O>::new", "_", ("?src", asz, "?init", "?skip")))
+        good = good and m is not None and image_src(prog, m["?src"])
         if good:
             good = match(m["?init"], ("bin", "Add", ("bin", "Mul", ("field", tl, 1), dwc), ("field", tl, 0))) is not None and match(m["?skip"], ("bin", "Sub", dwc, ("field", asz, 0))) is not None
         good = good and sm.ret[:4] == fc[0][:4]
@@ -299,8 +305,8 @@ def pixel_and_draw(prog, rep):
     d = prog.method1(IR, "draw", "embedded_graphics_core::image::ImageDrawable")
     s = sites(d, "fill_contiguous")
     if len(s) == 1:
-        m = match(fold(s[0][1][2]), ("call", "*ContiguousPixels::<'a, C, O>::new", "_", (P(1, "self"), size, ("const", 0), "?skip")))
-        ok = m is not None and match(m["?skip"], ("bin", "Sub", dwc, ("field", size, 0))) is not None
+        m = match(fold(s[0][1][2]), ("call", "*ContiguousPixels::<'a, C, O>::new", "_", ("?src", size, ("const", 0), "?skip")))
+        ok = m is not None and image_src(prog, m["?src"]) and match(m["?skip"], ("bin", "Sub", dwc, ("field", size, 0))) is not None
         rep.check(ok, "R09.3", "draw:stream", "ImageRaw::draw must skip data_width() - width padding pixels per row; found %s" % show(fold(s[0][1][2]), maxd=5), at=d.span, fn=d.path)
 
 
@@ -397,6 +403,34 @@ def contiguous_count(prog, rep):
               "remaining_x + remaining_y*width must be the number of colours still to come (each pulling path lowers it by 1 and returns the pulled colour, stop only at 0): %s" % "; ".join(why[:3]), at=nx.span, fn=nx.path, status="undecided")
     # initial potential from new()
     nw = prog.method1(CP, "new", None)
+    # the stream reads the data of the image it is built for: iter = RawDataSlice::new(<image>.data | <data slice>).into_iter()
+    try:
+        from mirq.origin import Origins as _O
+        src_ok = False
+        ro_ = strip_refs(_O(nw).return_origin())
+        alts = ro_[1] if ro_[0] == "phi" else (ro_,)
+        src_ok = bool(alts)
+        its = []
+        for alt in alts:
+            alt = strip_refs(alt)
+            it0 = strip_refs(alt[2][fidx["iter"]]) if alt[0] == "agg" else None
+            its += list(it0[1]) if it0 is not None and it0[0] == "phi" else [it0]
+        for it in its:
+            it = strip_refs(it) if it is not None else None
+            while it is not None and it[0] == "mut":
+                it = strip_refs(it[1])
+            mm = match(it, ("call", "*::into_iter", "_", (("call", "*RawDataSlice::<'a, R, BO>::new", "_", ("?d",)),))) if it is not None else None
+            if mm is None and it is not None and it[0] == "call" and it[1].split("::")[-1] == "into_iter" and len(it[3]) == 1:
+                inner = strip_refs(it[3][0])
+                if inner[0] == "call" and inner[1].split("::")[-1] == "new" and "RawDataSlice" in inner[1] and len(inner[3]) == 1:
+                    mm = {"?d": inner[3][0]}
+            d_ = strip_refs(mm["?d"]) if mm else None
+            p1 = nw.body["locals"][1]["ty"]
+            is_img = "ImageRaw" in str(p1)
+            src_ok = src_ok and d_ is not None and (d_ == ("field", ("param", 1, nw.body["locals"][1].get("name")), field_index(prog, IR, "data")) if is_img else (d_[0] == "param" and d_[1] == 1))
+    except Exception:
+        src_ok = False
+    rep.check(src_ok, "R09.4", "ContiguousPixels::new:source", "the colour stream must iterate RawDataSlice::new(image.data) of the image (or data slice) it is constructed with", at=nw.span, fn=nw.path, status="undecided")
     sz = P(2, "size")
     isyms = {("field", sz, 0): "w", ("field", sz, 1): "h"}
     bad = []
